@@ -1,6 +1,7 @@
 use super::request_matcher::{DateTimeCondition, HeaderValueCondition};
 use super::route::Route;
 use serde::Serialize;
+use std::collections::HashSet;
 use std::sync::Arc;
 
 #[derive(Serialize, Debug, Clone)]
@@ -86,6 +87,10 @@ impl<T> Trace<T> {
                 routes.extend(Trace::get_routes_from_traces(&trace.children));
             }
         }
+
+        // A route with several ip constraints is stored, and traced, once per constraint
+        let mut seen = HashSet::new();
+        routes.retain(|route| seen.insert(Arc::as_ptr(route)));
 
         routes
     }
